@@ -77,6 +77,36 @@ def variants(repo: Repo, relpaths: List[str]) -> List[Tuple[str, str, str]]:
     return out
 
 
+_FLIP = {ast.Lt: ast.Gt, ast.Gt: ast.Lt, ast.LtE: ast.GtE, ast.GtE: ast.LtE, ast.Eq: ast.Eq, ast.NotEq: ast.NotEq}
+
+
+def structural_variants(repo: Repo, relpaths: List[str]) -> List[Tuple[str, str, str]]:
+    """More behaviour-preserving rewrites, one site per variant: operands of a comparison swapped
+    (``a < b`` -> ``b > a``), and ``if c: A else: B`` turned into ``if not c: B else: A``."""
+    out = []
+    for rel in relpaths:
+        mod = repo.by_relpath.get(rel)
+        if mod is None:
+            continue
+        base = ast.parse(mod.source)
+        cmps = [n for n in ast.walk(base) if isinstance(n, ast.Compare) and len(n.ops) == 1 and type(n.ops[0]) in _FLIP]
+        for i in range(len(cmps)):
+            tree = ast.parse(mod.source)
+            c = [n for n in ast.walk(tree) if isinstance(n, ast.Compare) and len(n.ops) == 1 and type(n.ops[0]) in _FLIP][i]
+            c.left, c.comparators = c.comparators[0], [c.left]
+            c.ops = [_FLIP[type(c.ops[0])]()]
+            out.append((f"flip-compare {rel}:{c.lineno}:{c.col_offset}", rel, ast.unparse(tree)))
+        ifs = [n for n in ast.walk(base) if isinstance(n, ast.If) and n.orelse and not (len(n.orelse) == 1 and isinstance(n.orelse[0], ast.If))]
+        for i in range(len(ifs)):
+            tree = ast.parse(mod.source)
+            n = [x for x in ast.walk(tree) if isinstance(x, ast.If) and x.orelse and not (len(x.orelse) == 1 and isinstance(x.orelse[0], ast.If))][i]
+            n.test = ast.UnaryOp(op=ast.Not(), operand=n.test)
+            n.body, n.orelse = n.orelse, n.body
+            ast.fix_missing_locations(tree)
+            out.append((f"invert-if {rel}:{n.lineno}", rel, ast.unparse(tree)))
+    return out
+
+
 def _job(args):
     prop, name, rel, src, root = args
     from ..__main__ import run_rules
@@ -105,11 +135,13 @@ def files_of(prop: str) -> List[str]:
     return []
 
 
-def run(props: List[str], max_per_prop: int = 0, seed: int = 0, procs: int = 16):
+def run(props: List[str], max_per_prop: int = 0, seed: int = 0, procs: int = 16, structural: bool = True):
     repo = Repo()
     jobs = []
     for prop in props:
         vs = variants(repo, files_of(prop))
+        if structural:
+            vs = vs + structural_variants(repo, files_of(prop))
         if max_per_prop and len(vs) > max_per_prop:
             rnd = random.Random(f"{seed}-{prop}")
             fmt = [v for v in vs if v[0].startswith("format-only")]
